@@ -200,9 +200,14 @@ class Sim:
                 net.settle(node)
             elif r < 0.50:
                 ad = rng.choice(self.addrs)
-                if ad in net.refuse:
+                if ad in net.refuse or ad in net.unreachable:
                     net.refuse.discard(ad)
+                    net.unreachable.discard(ad)
                     self.ev("accept-again", list(ad))
+                elif rng.random() < 0.35:
+                    # no route to the address: the connect fails at once (not "in progress", then refused)
+                    net.unreachable.add(ad)
+                    self.ev("unreachable", list(ad))
                 else:
                     net.refuse.add(ad)
                     self.ev("refuse", list(ad))
